@@ -516,6 +516,41 @@ func TestVerifC15(t *testing.T) {
 	defer out.Close()
 	nhist := verifutil.EnvInt("VERIF_N", 40)
 	kinds := []string{"normal", "normal", "normal", "fail-blob", "fail-decompress", "stall-timeout", "stall-release", "async"}
+	// hand-written boundary cases first: no landmark, configured size exactly at / one past / one
+	// before the first-chunk offset of each file (the filter is `offset < size`)
+	for k := 0; k < 11; k++ {
+		ents := []verifc02.Ent{verifReg("p", 300, 11), verifReg("d/q", 700, 12), verifReg("r", 40, 13), verifReg("s", 0, 14)}
+		ents[1].Kind = 1
+		opts := verifc02.BuildOpts{ChunkSize: []int{64, 0, 500}[k%3], Plain: true, Zstd: k%2 == 1}
+		cfg := verifGenStackCfg(rnd)
+		cfg.regChunk, cfg.verify, cfg.syncAdd, cfg.passThrough = []int64{16, 100, 4096}[k%3], true, true, false
+		s, err := verifNewStack(t, ents, opts, cfg)
+		if err != nil {
+			out.Fail("scenario-setup-failed", fmt.Sprintf("boundary %d: %v", k, err))
+			continue
+		}
+		var firsts []int64
+		for _, f := range s.files {
+			if len(f.chunks) > 0 {
+				firsts = append(firsts, f.first)
+			}
+		}
+		sort.Slice(firsts, func(i, j int) bool { return firsts[i] < firsts[j] })
+		c := verifC15Case{kind: "normal", cfgSize: firsts[(k/3)%len(firsts)] + int64(k%3) - 0}
+		if k%3 == 2 {
+			c.cfgSize = firsts[(k/3)%len(firsts)] + 1
+		} else if k%3 == 1 {
+			c.cfgSize = firsts[(k/3)%len(firsts)]
+		} else {
+			c.cfgSize = firsts[(k/3)%len(firsts)] + 2
+		}
+		if k >= 9 {
+			// beyond the blob: capped at the blob size
+			c.cfgSize = int64(len(s.blob)) + int64(1+49*(k-9))
+		}
+		verifRunC15(t, out, rnd, s, c, fmt.Sprintf("boundary %d", k))
+		s.close()
+	}
 	for h := 0; h < nhist; h++ {
 		ents := verifC15Tar(rnd)
 		opts := verifc02.GenBuildOpts(rnd, ents)
@@ -555,7 +590,12 @@ func TestVerifC15(t *testing.T) {
 			}
 		}
 		sort.Slice(firsts, func(i, j int) bool { return firsts[i] < firsts[j] })
-		switch rnd.Intn(6) {
+		pick := rnd.Intn(6)
+		if opts.Plain {
+			// without a landmark the configured size decides: favour its boundary values
+			pick = []int{2, 2, 2, 2, 1, 1, 0, 4, 4, 4}[rnd.Intn(10)]
+		}
+		switch pick {
 		case 0:
 			c.cfgSize = 0
 		case 1:
